@@ -17,3 +17,22 @@ impl<T> VecIntoIter<T> {
 pub fn vec_into_iter<T>(v: Vec<T>) -> (it: VecIntoIter<T>)
     ensures it.rem() == v@
 { unimplemented!() }
+
+// `slice.iter().enumerate()`: yields (index, &element) in order (assumed; iterator adapters are outside Verus)
+#[verifier::external_body]
+#[verifier::reject_recursive_types(T)]
+pub struct SliceEnumIter<'a, T> { _p: core::marker::PhantomData<&'a T> }
+impl<'a, T> SliceEnumIter<'a, T> {
+    pub uninterp spec fn rem(&self) -> Seq<T>;
+    pub uninterp spec fn idx(&self) -> nat;
+    #[verifier::external_body]
+    pub fn next(&mut self) -> (r: Option<(usize, &'a T)>)
+        ensures
+            old(self).rem().len() == 0 ==> r.is_none() && final(self).rem() == old(self).rem() && final(self).idx() == old(self).idx(),
+            old(self).rem().len() > 0 ==> (r matches Some(p) && p.0 == old(self).idx() && *p.1 == old(self).rem()[0] && final(self).rem() == old(self).rem().skip(1) && final(self).idx() == old(self).idx() + 1),
+    { unimplemented!() }
+}
+#[verifier::external_body]
+pub fn slice_enum_iter<'a, T>(s: &'a [T]) -> (it: SliceEnumIter<'a, T>)
+    ensures it.rem() == s@, it.idx() == 0
+{ unimplemented!() }
